@@ -190,3 +190,35 @@ func VerifHarness_C02_TermCapTies() {
 		verifReach("nonempty")
 	}
 }
+
+// filter options differing between consecutive searches on one database: each answer is that
+// of a freshly built database
+func VerifHarness_C02_InterleavedFilters() {
+	fresh := c04DB(false)
+	warm := c04DB(false)
+	pick := func(tag string) SearchOptions {
+		o := SearchOptions{Limit: 9, UseNLP: verifBool(tag + ".nlp"), NoCrossPlatform: verifBool(tag + ".noCross"), UseFuzzy: verifBool(tag + ".fuzzy")}
+		switch verifIntRange(tag+".platforms", 0, 2) {
+		case 1:
+			o.Platforms = []string{"windows"}
+		case 2:
+			o.Platforms = []string{"macos"}
+		}
+		return o
+	}
+	o1, o2 := pick("first"), pick("second")
+	q := []string{"aa", "git", "zq"}[verifIntRange("query", 0, 2)]
+	_ = warm.SearchUniversal(q, o1)
+	a := fresh.SearchUniversal(q, o2)
+	b := warm.SearchUniversal(q, o2)
+	verifAssert(len(a) == len(b), "C02: the same request gives the same answer whatever the database served before (count)")
+	if len(a) == len(b) {
+		for k := range a {
+			verifAssert(a[k].Command.Command == b[k].Command.Command && c03SameFloat(a[k].Score, b[k].Score), "C02: the same request gives the same answer whatever the database served before")
+		}
+	}
+	verifReach("compared")
+	if len(a) > 0 {
+		verifReach("nonempty")
+	}
+}
